@@ -1,7 +1,7 @@
 #!/bin/bash
 # run_all.sh [tier] [seed]  -- run every claimed check, print one line each
 tier=${1:-quick}; seed=${2:-0}
-cd /verif
+cd "$(dirname "$0")/.."
 for p in $(python3 -c "import json; print(' '.join(c['property_id'] for c in json.load(open('MANIFEST.json'))['checks']))"); do
   t0=$(date +%s)
   out=$(VERIF_SEED=$seed timeout 7200 /venv/bin/python -m vmon.run $p --tier $tier 2>&1)
